@@ -534,44 +534,130 @@ def _cr12_setup(api, tls12, k):
     return x, y, types, cas, sig, outs[0].st
 
 
-def _mk_cr12_roundtrip(tls12, k):
-    tag = 'tls12' if tls12 else 'tls10-11'
+def cr12_layout_facts(wire, tls12, types, sig, cas):
+    """RFC 5246 7.4.4 layout of a TLS <= 1.2 CertificateRequest handshake message (including the 4-byte handshake
+    header) carrying exactly these values, as a list of named facts over `wire`.  Shared by the write-side lemma
+    (write(x) has this layout) and the parse-side lemma (any byte string with this layout parses to x)."""
+    nt = S.len_(types)
+    ns = S.len_(sig) * 2 if tls12 else None
+    cal = _lift(0)
+    for dn in cas:
+        cal = cal + 2 + S.len_(dn)
+    o = (5 + nt + 2 + ns) if tls12 else (5 + nt)
+    body = o + 2 + cal - 4
 
-    @scenario('roundtrip-CertificateRequest-%s-%dCA' % (tag, k), PROP,
-              opts={'no_invariant': {M + 'CertificateRequest._parse_tls12'}, 'loop_exit_ms': 8000},
-              doc='CertificateRequest (%s framing, %d DistinguishedName entries, any certificate_types%s, any entry contents '
-                  'including empty lists): parse(Parser(write(x))) gives equal fields and consumes everything; real '
-                  'constructor / create / write / parse bodies' % (tag, k, ' and signature algorithms' if tls12 else ''))
-    def rt(api):
+    def u(lo, n):
+        return VInt(smt.s_val(smt.s_slice(wire.t, _lift(lo).t, (_lift(lo) + n).t)))
+    facts = [('length', S.And(S.len_(wire) == 4 + body, S.is_bytes(wire))),
+             ('msg_type', at(wire, 0) == CR_T),
+             ('uint24-length', u(1, 3) == body),
+             ('certificate_types-length', u(4, 1) == nt),
+             ('certificate_types', S.forall(lambda k: elem_at(wire, _lift(5), k, 1) == at(types, k), 0, nt))]
+    if tls12:
+        facts += [('signature_algorithms-length', S.And(u(5 + nt, 2) == ns, ns % 2 == 0, div(ns, 2) == S.len_(sig))),
+                  ('signature_algorithms', S.forall(lambda k: S.And(elem_at(wire, 7 + nt, k * 2, 1) == at(sig, k)[0],
+                                                                    elem_at(wire, 7 + nt, k * 2 + 1, 1) == at(sig, k)[1]),
+                                                    0, S.len_(sig)))]
+    facts.append(('certificate_authorities-length', u(o, 2) == cal))
+    q = o + 2
+    for j, dn in enumerate(cas):
+        facts.append(('DistinguishedName-%d-length' % j, u(q, 2) == S.len_(dn)))
+        facts.append(('DistinguishedName-%d' % j, (lambda q_, dn_: S.forall(lambda t: at(wire, q_ + 2 + t) == at(dn_, t), 0, S.len_(dn_)))(q, dn)))
+        q = q + 2 + S.len_(dn)
+    return facts, o, cal
+
+
+def cr12_wf(tls12, types, sig, cas):
+    """the values are representable (otherwise write raises ValueError)"""
+    cs = [S.len_(types) < 256, S.forall(lambda k: (at(types, k) >= 0) & (at(types, k) < 256), 0, S.len_(types))]
+    if tls12:
+        cs += [S.len_(sig) * 2 < 65536,
+               S.forall(lambda k: S.And(at(sig, k)[0] >= 0, at(sig, k)[0] < 256, at(sig, k)[1] >= 0, at(sig, k)[1] < 256), 0, S.len_(sig))]
+    tot = _lift(0)
+    for dn in cas:
+        cs.append(S.len_(dn) < 65536)
+        tot = tot + 2 + S.len_(dn)
+    cs.append(tot < 65536)
+    return S.And(*cs)
+
+
+def _mk_cr12_lemmas(tls12, k):
+    tag = 'tls12' if tls12 else 'tls10-11'
+    what = '%s framing, %d DistinguishedName entries, any certificate_types%s, any entry contents (empty lists included)' % (
+        tag, k, ' and signature algorithms' if tls12 else '')
+
+    @scenario('layout-CertificateRequest-%s-%dCA' % (tag, k), PROP,
+              doc='write side (%s): CertificateRequest(version).create(..).write() has exactly the RFC 5246 7.4.4 layout '
+                  '(all length fields are the sums of what they enclose); ValueError iff a value does not fit; real '
+                  'constructor / create / write bodies' % what)
+    def layout(api):
         x, y, types, cas, sig, st = _cr12_setup(api, tls12, k)
-        for o in _normal(api, _method(api, x, 'write', [], st), 'write', allow=(ValueError,)):
-            wire = o.val
-            p, st2 = _parser_at(api, o.st, wire, 1)
-            for o2 in _normal(api, _method(api, y, 'parse', [p], st2), 'parse'):
-                ns = api.ns(o2.st)
-                got_t = ns.f(y, 'certificate_types')
-                api.oblige(o2.st, 'certificate_types-back',
-                           S.And(S.len_(got_t) == S.len_(types), S.forall(lambda j: at(got_t, j) == at(types, j), 0, S.len_(types))))
-                got_ca = ns.f(y, 'certificate_authorities')
-                ok_shape = hasattr(got_ca, 'items') and len(got_ca.items) == k
-                api.oblige(o2.st, 'certificate_authorities-count-back', ok_shape)
-                if ok_shape:
-                    for i in range(k):
-                        api.oblige(o2.st, 'certificate_authority-%d-back' % i, _bytes_eq(got_ca.items[i], cas[i]))
-                if tls12:
-                    for o3 in _normal(api, api.ex.getattr_(y, 'supported_signature_algs', o2.st, api.fr, None), 'sigalgs-getter'):
-                        g = o3.val
-                        if isinstance(g, VNone):
-                            api.unreachable(o3.st, 'present-signature-algorithms-parsed-as-None')
-                            continue
-                        api.oblige(o3.st, 'signature-algorithms-back',
-                                   S.And(S.len_(g) == S.len_(sig),
-                                         S.forall(lambda j: S.And(at(g, j)[0] == at(sig, j)[0], at(g, j)[1] == at(sig, j)[1]),
-                                                  0, S.len_(sig))))
-                api.oblige(o2.st, 'consumed-exactly', ns.f(p, 'index') == S.len_(wire))
-    return rt
+        wf = cr12_wf(tls12, types, sig, cas)
+        for o in _method(api, x, 'write', [], st):
+            if o.kind == 'raise':
+                api.oblige(o.st, 'write-raises-only-ValueError', issubclass(o.val.cls, ValueError))
+                api.oblige(o.st, 'write-raises-only-when-not-representable', S.Not(wf))
+                continue
+            facts, _, _ = cr12_layout_facts(o.val, tls12, types, sig, cas)
+            for (nm, f) in facts:
+                api.oblige(o.st, 'layout:' + nm, f)
+                o.st.assume(_lift(f).t)
+
+    @scenario('parse-CertificateRequest-%s-%dCA' % (tag, k), PROP,
+              opts={'no_invariant': {M + 'CertificateRequest._parse_tls12'}},
+              doc='parse side (%s): every byte string with that layout is accepted by CertificateRequest(version).parse, '
+                  'gives back equal fields (an empty list stays an empty list) and is consumed exactly; with the layout '
+                  'lemma: parse(Parser(write(x))) == x' % what)
+    def parse(api):
+        x, y, types, cas, sig, st = _cr12_setup(api, tls12, k)
+        wire = api.make('wire', T.bytes(), st)
+        facts, _, _ = cr12_layout_facts(wire, tls12, types, sig, cas)
+        st.assume(cr12_wf(tls12, types, sig, cas).t)
+        for (nm, f) in facts:
+            st.assume(_lift(f).t)
+        p, st2 = _parser_at(api, st, wire, 1)
+        for o2 in _normal(api, _method(api, y, 'parse', [p], st2), 'parse'):
+            ns = api.ns(o2.st)
+            got_t = ns.f(y, 'certificate_types')
+            api.oblige(o2.st, 'certificate_types-back',
+                       S.And(S.len_(got_t) == S.len_(types), S.forall(lambda j: at(got_t, j) == at(types, j), 0, S.len_(types))))
+            got_ca = ns.f(y, 'certificate_authorities')
+            ok_shape = hasattr(got_ca, 'items') and len(got_ca.items) == k
+            api.oblige(o2.st, 'certificate_authorities-count-back', ok_shape)
+            if ok_shape:
+                for i in range(k):
+                    api.oblige(o2.st, 'certificate_authority-%d-back' % i, _bytes_eq(got_ca.items[i], cas[i]))
+            if tls12:
+                for o3 in _normal(api, api.ex.getattr_(y, 'supported_signature_algs', o2.st, api.fr, None), 'sigalgs-getter'):
+                    g = o3.val
+                    if isinstance(g, VNone):
+                        api.unreachable(o3.st, 'present-signature-algorithms-parsed-as-None')
+                        continue
+                    api.oblige(o3.st, 'signature-algorithms-back',
+                               S.And(S.len_(g) == S.len_(sig),
+                                     S.forall(lambda j: S.And(at(g, j)[0] == at(sig, j)[0], at(g, j)[1] == at(sig, j)[1]),
+                                              0, S.len_(sig))))
+            api.oblige(o2.st, 'consumed-exactly', ns.f(p, 'index') == S.len_(wire))
+
+    @scenario('ca-length-mismatch-CertificateRequest-%s-%dCA' % (tag, k), PROP,
+              opts={'no_invariant': {M + 'CertificateRequest._parse_tls12'}},
+              doc='O-exact (%s): the same layout but with ANY other value in the 2-byte certificate_authorities length '
+                  '(smaller, larger, ending inside an entry) is rejected with DecodeError' % what)
+    def mismatch(api):
+        x, y, types, cas, sig, st = _cr12_setup(api, tls12, k)
+        wire = api.make('wire', T.bytes(), st)
+        facts, o, cal = cr12_layout_facts(wire, tls12, types, sig, cas)
+        st.assume(cr12_wf(tls12, types, sig, cas).t)
+        declared = api.make('declared', T.int(0, 65535), st)
+        st.assume((declared != cal).t)
+        for (nm, f) in facts:
+            if nm == 'certificate_authorities-length':
+                f = VInt(smt.s_val(smt.s_slice(wire.t, _lift(o).t, (_lift(o) + 2).t))) == declared
+            st.assume(_lift(f).t)
+        p, st2 = _parser_at(api, st, wire, 1)
+        _must_raise(api, _method(api, y, 'parse', [p], st2), 'parse-with-wrong-ca-length', DecodeError)
 
 
 for _tls12 in (True, False):
     for _k in (0, 1, 2, 3):
-        _mk_cr12_roundtrip(_tls12, _k)
+        _mk_cr12_lemmas(_tls12, _k)
